@@ -19,6 +19,24 @@ EXTRA = {
                  "CREATE UNIQUE INDEX ixm{i} ON fm{i} (c DESC, a);"],
     "alter_more": ["CREATE TABLE s.am{i} (a int, b int, c varchar(5));", "ALTER TABLE s.am{i} MODIFY COLUMN b bigint;", "ALTER TABLE s.am{i} DROP COLUMN c;",
                    "ALTER TABLE s.am{i} ADD CONSTRAINT df{i} DEFAULT 7 FOR a;", "ALTER TABLE s.am{i} ADD CONSTRAINT pk{i} PRIMARY KEY (a);"],
+    # ALTER ... ADD FOREIGN KEY over columns the table does not declare (they are appended, in the written order)
+    "fk_undeclared": ["CREATE TABLE fu{i} (a int, b int);",
+                      "ALTER TABLE fu{i} ADD CONSTRAINT fku{i} FOREIGN KEY (region_id, country_id, city_id, zone_id) REFERENCES geo (r, c, ci, z);"],
+    # mssql WITH (...) on a key constraint, two different property sets
+    "mssql_with": ["CREATE TABLE mw{i} (a int, b int, CONSTRAINT pkw{i} PRIMARY KEY CLUSTERED (a ASC) WITH (PAD_INDEX = OFF, IGNORE_DUP_KEY = OFF) ON [PRIMARY]);"],
+    "mssql_with2": ["CREATE TABLE mx{i} (a int, CONSTRAINT pkx{i} PRIMARY KEY CLUSTERED (a ASC) WITH (STATISTICS_NORECOMPUTE = ON, ALLOW_ROW_LOCKS = ON, ALLOW_PAGE_LOCKS = OFF));"],
+    # the key clause spells its columns with another quoting than their definitions
+    "pk_requoted": ["CREATE TABLE pq{i} (id int, `line` int, note text, PRIMARY KEY (`id`, line));"],
+    # a generic trailing '<word> <value>' pair whose word happens to be a marker key of another entity kind
+    "seq_value_pair": ["CREATE SEQUENCE sv{i} START WITH 1 INCREMENT BY 1 value 100;"],
+    "seq_comments_pair": ["CREATE SEQUENCE sc{i} START WITH 1 comments 3;"],
+    "type_value_pair": ["CREATE TYPE tv{i} AS ENUM ('red', 'green') value 7;"],
+    # clauses after a LIKE body
+    "like_cluster": ["CREATE TABLE lk{i} LIKE s CLUSTER BY (a, b);"],
+    "like_partition": ["CREATE TABLE lp{i} (LIKE s) PARTITION BY RANGE (a);"],
+    "obj_params": ["CREATE TYPE s.site{i} AS OBJECT (id int, geom geometry(Point, 4326), name varchar(10) COMMENT 'pk');"],
+    "bq_dq_hash": ["CREATE TABLE bh{i} (a int OPTIONS(description=\"ticket # 42 in tracker\"), b varchar(9) DEFAULT \"dq # text\") OPTIONS(description=\"rows # per day\");"],
+    "stored_single": ["CREATE TABLE ss{i} (a int) STORED AS INPUTFORMAT 'org.x.In';", "CREATE TABLE st{i} (a int) STORED AS OUTPUTFORMAT 'org.x.Out' LOCATION '/x';"],
     # hive serde with an input.regex property (the regex is kept on the parser object's lexer while the statement is parsed)
     "hql_serde_regex": ["CREATE EXTERNAL TABLE sr{i} (a string, b string)\nROW FORMAT SERDE 'org.apache.hadoop.hive.serde2.RegexSerDe'\nWITH SERDEPROPERTIES (\n  \"input.regex\" = \"([0-9]+);(.*)\"\n)\nSTORED AS TEXTFILE;"],
     # three-part (project-qualified) names mixed with two-part references to the same table
@@ -28,7 +46,7 @@ EXTRA = {
     "partition": ["CREATE TABLE pt{i} (a int, b date) PARTITION BY RANGE (b);"],
     "partitioned": ["CREATE TABLE pd{i} (a int, b string) PARTITIONED BY (dt string, hr int);"],
 }
-EXTRA_KIND = {"clone_db": "databases", "clone_schema": "schemas", "set2": "ddl_properties", "set_empty": "ddl_properties", "set_empty2": "ddl_properties"}
+EXTRA_KIND = {"seq_value_pair": "sequences", "seq_comments_pair": "sequences", "type_value_pair": "types", "obj_params": "types", "clone_db": "databases", "clone_schema": "schemas", "set2": "ddl_properties", "set_empty": "ddl_properties", "set_empty2": "ddl_properties"}
 
 
 def all_kinds():
